@@ -1,4 +1,4 @@
-import PyhfModel.Decl
+import PyhfModel.Dual
 import PyhfDriver.Json
 open Lean
 namespace Pyhf.Driver
@@ -142,5 +142,28 @@ def opModel (j : Json) : R Json := do
     | .ok m =>
       let rs ← qs.mapM (runQuery m)
       pure (Json.mkObj [("ok", Json.mkObj [("error", Json.null), ("results", Json.arr rs.toArray)])])
+
+end Pyhf.Driver
+
+namespace Pyhf.Driver
+open Pyhf
+
+/-- `{"op":"grad","spec":…,"settings":…,"pars":[…],"data":[…]}` → the model's term decomposition evaluated at
+dual numbers: for every parameter direction `j` the list of `(kind, datum, loc value, d loc/dθ_j, scale)`;
+the harness assembles `∂ twice_nll / ∂θ_j = −2 Σ_terms (∂ log-density/∂ loc) · (d loc/dθ_j)` -/
+def opGrad (j : Json) : R Json := do
+  let settings ← parseSettings (← fld j "settings")
+  let spec ← parseSpec (← fld j "spec")
+  let θ ← fldFs j "pars"
+  let data ← fldFs j "data"
+  match buildModel (Dual.prim floatPrim) spec.toDual settings.toDual with
+  | .error e => pure (Json.mkObj [("ok", Json.mkObj [("error", Json.str e.str)])])
+  | .ok m =>
+    let dataD := data.map Dual.const
+    let rows := (List.range θ.length).map fun k =>
+      let ts := logpdfTerms (Dual.prim floatPrim) m (parOfSeeded θ k) dataD
+      Json.arr (ts.map fun (kind, d, l, s) =>
+        Json.arr #[Json.str (kindStr kind), putF d.v, putF l.v, putF l.d, putF s.v]).toArray
+    pure (Json.mkObj [("ok", Json.mkObj [("error", Json.null), ("directions", Json.arr rows.toArray)])])
 
 end Pyhf.Driver
